@@ -193,10 +193,7 @@ def step (ds : DS) (fs : List String) (impl : String) : DS × String × String :
           | _, _ => none
         | _ => none
       let kind := g "kind"
-      let st : St := { clientStreams := kind != "u", serverStreams := kind == "b", disableRetry := dis, pol := pol,
-                       maxBuf := 0, script := script,
-                       cs := { finished := false, committed := false, firstAttempt := true, numRetries := 0,
-                               sincePushback := 0, throttler := if dis then none else thr } }
+      let st : St := St.init (kind != "u") (kind == "b") dis pol 0 thr script
       let effMax : Int := match pol with | some p => if dis then 1 else p.maxAttempts | none => 1
       ({ cfg := some { st := st, effMax := effMax, codes := (match pol with | some p => p.codes | none => []), thr := if dis then none else thr },
          mon := { tokens := if dis then none else thr.map (·.tokens) } }, "ok", "-")
